@@ -3,11 +3,17 @@ import copy
 from formats import manifest_common as mc
 
 KIND = "modules"
-NAMES = ["httpd", "nodejs", "postgresql", "perl-DBI", "my_mod", "389-ds", "a.b"]
-STREAMS = ["2.4", "10", "rolling", "el8", "1.0-beta"]
-VERS = ["20180816142114", "1", "820190206142837"]
-CTXS = ["6c81f848", "abc", "9edba152"]
-PREFIXES = ["", "", "modules/x86_64/", "/abs/", "a:b/"]
+NAMES = ["httpd", "nodejs", "postgresql", "perl-DBI", "my_mod", "389-ds", "a.b",
+         # audit A1/A2/A4/A5
+         "HTTPD", "Httpd", "mod ule", " m", "m\tn", "m\u00a0n", "\u00fcn\u00ef", "\u540d\u524d", "\U0001f600", "None", "0", "a@b%c,d;e=f#g[h]",
+         'q"uo\'te\\', "x" * 300, "a--b"]
+STREAMS = ["2.4", "10", "rolling", "el8", "1.0-beta", "0", "1.0", "None", "s t", "2.4 ", "\u0663", "S", "s"]
+VERS = ["20180816142114", "1", "820190206142837", "0", "9223372036854775807", "1.0", "v 1"]
+CTXS = ["6c81f848", "abc", "9edba152", "00000000", "ctx.1-2", "0", "C\u00d6"]
+PREFIXES = ["", "", "modules/x86_64/", "/abs/", "a:b/", "./", "a//", "dir/../", "\u00fcn\u00ef/", "m/m/"]
+KOJI_TAGS = ["module-x", "0", "None", "tag with blank", "\U0001f600", "t" * 300, 'q"t', "a/b", " "]
+MD_EXOTIC = ["./m.yaml", "a//m.yaml", "a/../m.yaml", "dir/", "my docs/m.yaml", "\u00fcn\u00ef/m.yaml", "x" * 300, "None", " ", "0", "a/a/a"]
+RPMS_EXOTIC = ["", " ", "None", "\U0001f600-0:1-1.x", 'q"r', "r" * 300, "foo-0:1.0-1.x86_64"]
 BAD_UIDS = ["httpd", "a::b", ":s", "a:", "a:b:c:d:e", "", "a:b:", "a:b::d", None, 5, ["a:b"]]
 MD_PATHS = ["Server/x86_64/os/repodata/%s-modules.yaml.gz", "repodata/%s.yaml", "%s"]
 CATEGORIES = ["binary", "debug", "source"]
@@ -31,7 +37,10 @@ def seq_arg(j):
 
 
 def add(obj, op):
-    obj.add(op["variant"], op["arch"], op["uid"], op["koji_tag"], op["modulemd_path"], op["category"], seq_arg(op["rpms"]))
+    arg = seq_arg(op["rpms"])
+    obj.add(op["variant"], op["arch"], op["uid"], op["koji_tag"], op["modulemd_path"], op["category"], arg)
+    if isinstance(arg, list):
+        arg.append("__caller_mutated_its_list_after_the_call__")      # audit B1: the stored list must be a copy
 
 
 def gen_module(rng):
@@ -47,10 +56,13 @@ def gen_module(rng):
 def valid_op(rng, parts, variant, arch, i):
     uid = ":".join(parts)
     category = CATEGORIES[i % 3]
-    k = rng.randint(0, 3)
-    items = [rng.choice(RPMS) for _ in range(k)]
+    k = rng.choice([0, 1, 2, 3, 3, 10])
+    items = [rng.choice(RPMS if rng.random() < 0.85 else RPMS_EXOTIC) for _ in range(k)]
+    # audit A9: koji tag and modulemd path decoupled from uid / category
+    koji = "module-%s" % "-".join(parts) if rng.random() < 0.7 else rng.choice(KOJI_TAGS)
+    mdp = rng.choice(MD_PATHS) % category if rng.random() < 0.7 else rng.choice(MD_EXOTIC)
     return {"variant": variant, "arch": arch, "uid": rng.choice(PREFIXES) + uid,
-            "koji_tag": "module-%s" % "-".join(parts), "modulemd_path": rng.choice(MD_PATHS) % category, "category": category,
+            "koji_tag": koji, "modulemd_path": mdp, "category": category,
             "rpms": {"tuple": items} if rng.random() < 0.3 else {"list": items},
             "expect": {"uid": uid, "parts": (parts + ["", ""])[:4]}, "why": "valid"}
 
@@ -95,10 +107,8 @@ def mutated_op(rng, base):
 
 def gen_ops(rng, tier, n=None, valid_only=False):
     n = n or rng.choice([2, 4, 6, 10] + ([20, 40] if tier != "quick" else [14]))
-    arches = mc.arches(valid=False)
-    start = rng.randrange(len(arches))
-    my_arches = [arches[(start + 11 * i) % len(arches)] for i in range(rng.choice([1, 2, 3]))]
-    variants = rng.sample(mc.VARIANTS, rng.choice([1, 2, 3]))
+    my_arches = mc.next_arches(rng.choice([1, 2, 3]), valid=False)
+    variants = mc.pick_variants(rng, rng.choice([1, 2, 3]))
     mods = [gen_module(rng) for _ in range(rng.choice([1, 2, 3]))]
     ops, valid = [], []
     for i in range(n):
@@ -120,6 +130,9 @@ def gen_ops(rng, tier, n=None, valid_only=False):
         if op.get("why") in ("valid", "repeat", "elsewhere"):
             valid.append(op)
         ops.append(op)
+        if op.get("expect") == "refuse" and not valid_only and rng.random() < 0.4 and valid:
+            rep = dict(rng.choice(valid)); rep["why"] = "repeat"          # audit B2: failed -> repaired -> success
+            ops.append(rep)
     return ops
 
 
